@@ -144,10 +144,17 @@ def main(argv):
                 row["by"] = sorted(set(inlined[fp(fn)]))
             else:
                 pins = [g for (n, io, g) in pinned.get(fsha, ()) if n == fn.name and (io is None or io in (tgt, tr))]
-                # a fragment pin (token_hash of a piece of text): the function's name + body inside it
-                frag = [g for h, gs in hashed.items() for g in gs
-                        if hashed_frag[h] == src or ("fn " + fn.name) in hashed_frag[h] and hashed_frag[h] in src and len(hashed_frag[h]) < len(src)
-                        and _fn_in_fragment(src, hashed_frag[h], fn.name)]
+                # a fragment pin (token_hash of a piece of text): the whole file, or a piece that holds this function
+                frag = []
+                for h, gs in hashed.items():
+                    fr = hashed_frag[h]
+                    if fr == src:
+                        frag.extend(gs)
+                    elif not fr.startswith("fn ") and ("fn " + fn.name) in fr and fr in src:
+                        # an item pin (a whole trait / impl): holds this function's text
+                        ftext = _fn_text(src, fn.name, tgt, tr)
+                        if ftext and ftext in fr:
+                            frag.extend(gs)
                 if pins or frag:
                     row["class"] = "pinned"
                     row["by"] = sorted(set(pins + frag))
@@ -182,8 +189,16 @@ def main(argv):
     return 0
 
 
-def _fn_in_fragment(src, frag, name):
-    return ("fn " + name + "(") in frag or ("fn " + name + "<") in frag
+def _fn_text(src, name, tgt, tr):
+    for io in (tgt, tr, None):
+        n0 = len(drv.REGISTRY)
+        try:
+            return drv.fn_source(src, name, io)
+        except Exception:
+            pass
+        finally:
+            del drv.REGISTRY[n0:]
+    return ""
 
 
 def markdown(out):
